@@ -16,6 +16,7 @@ fn disarm() { unsafe { PANIC_AT_DROP = 0; PANIC_AT_CALLBACK = 0; } }
 fn buffer_valid_after_panic<const N: usize>(b: &mut CircularBuffer<N, Tok>, what: &'static str) {
     if !wf(b) { nd::record_failure("[C05,C06] after the caught panic: start/size out of range"); return; }
     let s = ids_of(b);
+    nd::trace(format!("after:{:?}", b));
     let mut i = 0;
     while i < s.len {
         let id = s.a[i] as usize;
@@ -222,4 +223,74 @@ pub(crate) fn p_zst_huge<const N: usize>() {
     let before = zdrops();
     drop(b);
     if r.is_ok() && zdrops() - before != remaining { nd::record_failure("[C19] huge ZST buffer: dropping the buffer does not destroy exactly the remaining elements"); }
+}
+
+
+/// Debug output (C07, C13; bounded stand-in - core::fmt exhausts CBMC, so no Kani harness decides this):
+/// for every layout of a capacity-N byte buffer and a list of formatter flags, the Debug output of the buffer,
+/// of its iterators and of a drain equals that of the equivalent slice
+pub(crate) fn p_debug<const N: usize>() {
+    scenario_begin();
+    let mut b = any_u8buf::<N>();
+    let s = bytes_of(&b);
+    let v: Vec<u8> = (0..s.len).map(|i| s.a[i]).collect();
+    let sl: &[u8] = &v[..];
+    macro_rules! same { ($fmt:literal, $what:literal) => {
+        if format!($fmt, b) != format!($fmt, sl) { nd::record_failure(concat!("[C07,C13] Debug output of the buffer differs from that of the equivalent slice with format ", $fmt)); }
+        if format!($fmt, b.iter()) != format!($fmt, sl) { nd::record_failure(concat!("[C07,C13] Debug output of iter() differs from that of the equivalent slice with format ", $fmt)); }
+    } }
+    same!("{:?}", ""); same!("{:#?}", ""); same!("{:5?}", ""); same!("{:<4?}", ""); same!("{:#x?}", ""); same!("{:02X?}", ""); same!("{:+?}", "");
+    let k = nd::usize_in(0, N);
+    let k = if k < s.len { k } else { s.len };
+    if format!("{:?}", b.range(k..)) != format!("{:?}", &sl[k..]) { nd::record_failure("[C07,C13] Debug output of range(k..) differs from that of the equivalent sub-slice"); }
+    if format!("{:?}", b.range_mut(..k)) != format!("{:?}", &sl[..k]) { nd::record_failure("[C07,C13] Debug output of range_mut(..k) differs from that of the equivalent sub-slice"); }
+    if format!("{:?}", b.iter_mut()) != format!("{:?}", sl) { nd::record_failure("[C07,C13] Debug output of iter_mut() differs from that of the equivalent slice"); }
+    { let mut it = b.iter(); let _ = it.next(); let _ = it.next_back();
+      let lo = if s.len > 0 { 1 } else { 0 }; let hi = if s.len > 1 { s.len - 1 } else { lo };
+      if format!("{:?}", it) != format!("{:?}", &sl[lo..hi]) { nd::record_failure("[C07,C13] Debug output of a partly consumed iterator differs from the remaining elements"); } }
+    { let it = b.clone().into_iter(); if format!("{:?}", it) != format!("{:?}", sl) { nd::record_failure("[C07,C13] Debug output of into_iter() differs from that of the equivalent slice"); } }
+    { let mut d = b.drain(k..); let _ = d.next_back();
+      let hi = if s.len > k { s.len - 1 } else { k };
+      if format!("{:?}", d) != format!("{:?}", &sl[k..hi]) { nd::record_failure("[C07,C13] Debug output of a drain differs from the elements it has not yet produced"); } }
+}
+
+/// C18 differential trace (bounded stand-in): a panic-free operation on every layout; the observable
+/// events (results, contents, destructor and clone order, Debug output of iterators and drains) go to the trace,
+/// which the driver compares between the default build and the nightly `--features unstable` build
+pub(crate) fn t_ops<const N: usize>() {
+    scenario_begin();
+    let mut b = any_tokbuf::<N>();
+    let op = nd::usize_in(0, 19);
+    let arg = nd::usize_in(0, N + 1);
+    let arg2 = nd::usize_in(0, 2);
+    let src: [Tok; 6] = core::array::from_fn(|_| Tok::fresh());
+    let r = catch_unwind(AssertUnwindSafe(|| {
+        match op {
+            0 => nd::trace(format!("r={:?}", b.push_back(Tok::fresh()))),
+            1 => nd::trace(format!("r={:?}", b.push_front(Tok::fresh()))),
+            2 => nd::trace(format!("r={:?}", b.try_push_back(Tok::fresh()))),
+            3 => nd::trace(format!("r={:?}", b.try_push_front(Tok::fresh()))),
+            4 => nd::trace(format!("r={:?} {:?}", b.pop_back(), b.pop_front())),
+            5 => nd::trace(format!("r={:?}", b.remove(arg))),
+            6 => nd::trace(format!("r={:?} {:?}", b.swap_remove_back(arg), b.swap_remove_front(arg2))),
+            7 => { b.truncate_back(arg); }
+            8 => { b.truncate_front(arg); }
+            9 => { b.extend_from_slice(&src[..if arg + arg2 < 6 { arg + arg2 } else { 6 }]); }
+            10 => { b.fill(Tok::fresh()); }
+            11 => { b.fill_spare_with(|| Tok::fresh()); }
+            12 => { let s = b.make_contiguous(); nd::trace(format!("mc={:?}", s)); }
+            13 => { let (x, y) = b.as_slices(); nd::trace(format!("sl={:?}", x.iter().chain(y.iter()).collect::<Vec<_>>())); }
+            14 => { let len = b.len(); let s = if arg2 < len { arg2 } else { len }; let e = if arg > s { if arg < len { arg } else { len } } else { s };
+                    let mut d = b.drain(s..e); nd::trace(format!("dr={:?}", d)); let x = d.next(); let y = d.next_back(); nd::trace(format!("n={:?} nb={:?} rest={:?} len={}", x, y, d, d.len())); drop(d); }
+            15 => { let len = b.len(); let s = if arg2 < len { arg2 } else { len };
+                    let mut it = b.range(s..); let x = it.next_back(); nd::trace(format!("rg={:?} {:?} {}", x, it, it.len()));
+                    let mut im = b.range_mut(..s); let y = im.next(); nd::trace(format!("rgm={:?} {:?} {}", y.map(|t| t.id), im, im.len())); }
+            16 => { let c = b.clone(); nd::trace(format!("cl={:?} eq={}", c, c == b)); drop(c); }
+            17 => { let arr: [Tok; 4] = core::array::from_fn(|_| Tok::fresh()); let c: CircularBuffer<N, Tok> = CircularBuffer::from(arr); nd::trace(format!("fa={:?}", c)); drop(c); }
+            18 => { let c: CircularBuffer<N, Tok> = TokIter::any(arg + arg2).collect(); nd::trace(format!("fi={:?}", c)); let mut it = c.into_iter(); let x = it.next_back(); nd::trace(format!("ii={:?} {:?}", x, it)); drop(it); }
+            _ => { b.extend(TokIter::any(arg)); nd::trace(format!("g={:?} nb={:?} i={:?}", b.get(arg2).map(|t| t.id), b.nth_back(arg2).map(|t| t.id), if arg2 < b.len() { Some(b[arg2].id) } else { None })); }
+        }
+    }));
+    nd::trace(format!("panicked={} b={:?} len={} full={}", r.is_err(), b, b.len(), b.is_full()));
+    drop(b); drop(src);
 }
